@@ -472,7 +472,11 @@ fn render_input(frame: &mut Frame<'_>, theme: &ThemeStyles, area: Rect, input: &
 }
 
 fn render_overlay(frame: &mut Frame<'_>, state: &TuiState, theme: &ThemeStyles, mode: RenderMode) {
-    let body = overlay_body_area(frame.area(), state.output_view);
+    // On a terminal too small for the status and input bars the body would lie outside the buffer.
+    let body = overlay_body_area(frame.area(), state.output_view).intersection(frame.area());
+    if body.width == 0 || body.height == 0 {
+        return;
+    }
     match &state.overlay {
         Overlay::None => {}
         Overlay::Activity => render_activity_overlay(frame, state, theme, body),
